@@ -15,8 +15,21 @@ import (
 // Hook, when set, is called before every atomic operation.
 var Hook func(op string)
 
+// (read without the race detector looking: goroutines of the library that outlive an
+// execution may still get here while the harness clears the hook)
+//
+//go:norace
+//go:noinline
+func hook() func(op string) { return Hook }
+
+// SetHook sets Hook.
+//
+//go:norace
+//go:noinline
+func SetHook(h func(op string)) { Hook = h }
+
 func point(op string) {
-	if h := Hook; h != nil {
+	if h := hook(); h != nil {
 		h(op)
 	}
 }
